@@ -230,7 +230,7 @@ func (r *Run) Violation(key, what string, rp *Replay) {
 	}
 	r.violations = append(r.violations, key)
 	r.replayN++
-	dir := filepath.Join(Root(), "replays", r.ID, fmt.Sprintf("%03d-%s", r.replayN, sanitize(key)))
+	dir := filepath.Join(Root(), "replays"+os.Getenv("VERIF_REPLAYS_SUFFIX"), r.ID, fmt.Sprintf("%03d-%s", r.replayN, sanitize(key)))
 	_ = os.MkdirAll(dir, 0755)
 	meta := map[string]any{"property": r.ID, "key": key, "what": what, "seed": r.Seed, "tier": r.Tier}
 	if rp != nil {
